@@ -865,6 +865,9 @@ def op_checklocktimeverify(stack, tx_obj, input_index):
         return False
     if len(stack) < 1:
         return False
+    # the operand is a script number of at most 5 bytes (BIP65)
+    if len(stack[-1]) > 5:
+        return False
     element = decode_num(stack[-1])
     if element < 0:
         return False
@@ -879,6 +882,9 @@ def op_checklocktimeverify(stack, tx_obj, input_index):
 def op_checksequenceverify(stack, tx_obj, input_index):
     sequence = tx_obj.tx_ins[input_index].sequence
     if len(stack) < 1:
+        return False
+    # the operand is a script number of at most 5 bytes (BIP112)
+    if len(stack[-1]) > 5:
         return False
     element = decode_num(stack[-1])
     if element < 0:
